@@ -293,12 +293,12 @@ def plan(ck):
     for n in ["wg/block_vs_done", "wg/two_waiters"] + ([] if quick else ["ose/two_jobs", "wg/inline_vs_done"]):
         jobs.append(dict(name=n + " weak", args=["--mode", "dfs", "--exact", n, "--weak", "1" if quick else "2"], cfg="F", exhaustive=True))
     # seeded random: 3 workers + 3 waiters of mixed kinds (+ futures)
-    mixes, walks = (12, 400) if quick else (60, 4000)
+    mixes, walks = (12, 400) if quick else (40, 1000)
     jobs.append(dict(name="mix", args=["--mode", "random", "--only", "mix/", "--max", str(walks), "--seed", str(ck.seed),
                                        "--param", "mixes=%d" % mixes, "--param", "pseed=%d" % ck.seed], cfg="F", exhaustive=False))
     if not quick:
         for n in ["wg/block_inline", "wg/attach_block"]:
-            jobs.append(dict(name=n, args=["--mode", "dfs", "--exact", n, "--max", "1500000"], cfg="F", exhaustive=False))
+            jobs.append(dict(name=n, args=["--mode", "dfs", "--exact", n, "--max", "1000000"], cfg="F", exhaustive=False))
         # the TimedWaiter's lifetime under AddressSanitizer
         for n in ["wg/timed_vs_done/dl=10", "wg/timed_vs_done/dl=30", "ose/timed_vs_set/dl=20"]:
             jobs.append(dict(name=n + " asan", args=["--mode", "dfs", "--exact", n, "--max", "150000"], cfg="FA", exhaustive=False))
@@ -346,7 +346,13 @@ def main(ck):
     ck.cov["scenarios"] = len(heads)
     ck.cov["exhaustive_scenarios"] = sorted(h["scenario"] + (" +weak" if "weak" in h["_job"]["name"] else "")
                                             for h in heads if h["exhaustive"] and h["_job"]["exhaustive"])
-    ck.cov["exhaustive"] = all(h["exhaustive"] for h in heads if h["_job"]["exhaustive"]) and bool(heads)
+    # "exhaustive" is about the whole exploration: it also contains seeded random walks (and, in the thorough tier,
+    # capped DFS runs), so it is False; the small configurations listed in exhaustive_scenarios were explored completely
+    ck.cov["exhaustive"] = bool(heads) and all(h["exhaustive"] for h in heads)
+    ck.cov["exhaustive_small_configs"] = all(h["exhaustive"] for h in heads if h["_job"]["exhaustive"]) and bool(heads)
+    if not ck.cov["exhaustive_small_configs"]:
+        ck.broken.append(dict(name="exploration budget: a configuration meant to be explored exhaustively was cut",
+                              detail=str([h["scenario"] for h in heads if h["_job"]["exhaustive"] and not h["exhaustive"]])))
     ck.cov["executions_by_scenario"] = {(h["scenario"][:40] + "|" + h["_job"]["name"][-5:]): h["executions"] for h in heads if not h["scenario"].startswith("mix/")}
     ck.cov["random_executions"] = sum(h["executions"] for h in heads if h["scenario"].startswith("mix/"))
     for t in traces:
